@@ -163,3 +163,31 @@ def check_results(ctx, cfg, res, tag=""):
                 ctx.violation(tag + "zero-temperature-energy-increased", "value %r > initial %r" % (r.value, float(iv)), w)
                 return False
     return True
+
+
+def check_results_lenient(ctx, cfg, model, res, tag=""):
+    """contract for a model whose bookkeeping may be an upper bound (edited in place, not refreshed): states cover at
+    least the variables that occur in a term, values lie in the domain, value == model(state), best is the minimum"""
+    fn = cfg["fn"]
+    spin = is_spin(fn)
+    kind = "spin" if spin else "bool"
+    p = ref.from_raw(kind, dict(model))
+    tv = p.vars()
+    dom = (1, -1) if spin else (0, 1)
+    w = dict(describe(cfg), terms_now=dict(model))
+    na = cfg["kw"].get("num_anneals", 1)
+    if len(res) != max(na, 0):
+        ctx.violation(tag + "wrong-number-of-results", "num_anneals=%r gave %d results" % (na, len(res)), w)
+        return False
+    for r in res:
+        if not tv <= set(r.state) or any(v not in dom for v in r.state.values()) or r.spin is not spin:
+            ctx.violation(tag + "malformed-state", "state %r (spin=%r); variables in terms %r" % (r.state, r.spin, sorted(map(repr, tv))), w)
+            return False
+        if frac(r.value) != p.value({x: r.state[x] for x in tv}):
+            ctx.violation(tag + "value-does-not-match-state", "value %r, current model at the state %r" % (r.value, float(p.value({x: r.state[x] for x in tv}))), w)
+            return False
+        ctx.count("result-contract-checks")
+    if len(res) and (res.best is None or res.best.value != min(r.value for r in res)):
+        ctx.violation(tag + "best-not-minimum", "best %r" % (res.best,), w)
+        return False
+    return True
